@@ -188,6 +188,15 @@ def bitstream_jobs(Job, cfg=CFG_NDEBUG, tier="quick"):
                     cbmc=["--unwindset", "mfm_read_byte_wrapped_for_contract_checking.0:9,mfm_read_byte.0:9", "--unwinding-assertions"])]
 
 
+def mmb_jobs(Job, cfg=CFG_NDEBUG, tier="quick"):
+    return [Job("D_mmb_ctor_%s" % cfg[0], "harness/dfs_mmb.c", "h_mmb", enforce=["MmbFile_ctor"], loops=True,
+                defines=list(cfg[1]), extract=ext(["sector_count", "MmbFile_ctor"]), tier=tier, cover=True)]
+
+
+def c04_extra(Job, tier):
+    return mmb_jobs(Job)
+
+
 DFS_TRUSTED = [
     "engine/cxx2c.py: the verified text is the function body extracted from /repo on every run; rules fired and SHA-256 of the source range are in coverage.jobs[].extracted",
     "models/dfs_model.h: DataAccess::read_block as a deterministic partial function with a call log; std::function visitors as monitored calls; "
